@@ -145,7 +145,8 @@ def summarise_action(fn: ast.FunctionDef) -> ActionSummary:
     params = [x.arg for x in fn.args.args]
     self_name = params[0] if params else "self"
     tok = params[1] if len(params) > 1 else None
-    for n in walk_no_nested(fn):
+    body = ast.Module(body=list(fn.body), type_ignores=[])
+    for n in walk_no_nested(body):
         if isinstance(n, ast.Return):
             if n.value is None or (isinstance(n.value, ast.Constant) and n.value.value is None):
                 a.returns_none = True
